@@ -304,6 +304,14 @@ func randMat(rng *rand.Rand, kind string, scale float64, depth int) *matSpec {
 			m.Specular = randColor(rng, scale)
 		} else {
 			f := 0.1 + 0.8*rng.Float64()
+			switch rng.Intn(6) {
+			case 0:
+				// a diffuse term that is faint but not zero (and the mirror case): the mixture is
+				// still a mixture as long as the colour is not exactly black
+				f = 1 - math.Pow(10, -3-7*rng.Float64())
+			case 1:
+				f = math.Pow(10, -3-7*rng.Float64())
+			}
 			m.Specular = randColor(rng, scale*f)
 			m.Diffuse = randColor(rng, scale*(1-f))
 		}
